@@ -353,7 +353,7 @@ func checkConnectors(c *fw.Ctx) {
 			})
 		}
 	}
-	c.Min(rule+" connector literals", len(sites), 5)
+	c.Min(rule+" connector literals", len(sites), 2)
 	for _, s := range sites {
 		construct := fmt.Sprintf("%s literal in %s", s.typ, s.fn)
 		switch s.typ {
